@@ -36,42 +36,69 @@ package jschema
 
 //@ func (*exampleBuilder).Build(node)
 //@   props C11 C15
-//@   trusted "recursive example assembly: arbitrary effect; ASSUMED only that an example that is present is non-empty and does not end with a comma (a JSON value never does), and the pool protocol (a checked-out buffer is touched by its owner alone)"
+//@   requires b != nil && b.processedTypes != nil
+//@   assumes isNode(node) && nodeTreeOK(node)
+//@   assumes typeis(node, *internalSchema.LiteralNode) ==> lexWF(unbox(node, *internalSchema.LiteralNode).schemaLexEvent) && len(lexBytes(unbox(node, *internalSchema.LiteralNode).schemaLexEvent)) > 0 && lexBytes(unbox(node, *internalSchema.LiteralNode).schemaLexEvent)[0] != ',' && lexBytes(unbox(node, *internalSchema.LiteralNode).schemaLexEvent)[len(lexBytes(unbox(node, *internalSchema.LiteralNode).schemaLexEvent)) - 1] != ','
 //@   maypanic
 //@   modifies *
-//@   defines normal && result0 != nil ==> len(result0) > 0 && result0[len(result0) - 1] != ',' && result0[0] != ','
-//@   defines forall q *stdBytes.Buffer :: !old(q.pooled) ==> !q.pooled && q.n == old(q.n) && q.last == old(q.last) && q.prev == old(q.prev) && q.b0 == old(q.b0) && q.b1 == old(q.b1)
+//@   keeps exampleBuilder
+//@   ensures normal && result0 != nil ==> len(result0) > 0 && result0[len(result0) - 1] != ',' && result0[0] != ','
+//@   ensures forall q *stdBytes.Buffer :: old(allocated(q)) && !old(q.pooled) ==> !q.pooled && q.n == old(q.n) && q.last == old(q.last) && q.prev == old(q.prev) && q.b0 == old(q.b0) && q.b1 == old(q.b1)
+//@   ensures normal && typeis(node, *internalSchema.LiteralNode) ==> result1 == nil && result0 == old(lexBytes(unbox(node, *internalSchema.LiteralNode).schemaLexEvent))
 //@ func (*exampleBuilder).buildObjectKey(k)
 //@   props C11 C15
 //@   trusted "key example: arbitrary effect; ASSUMED only the pool protocol (a checked-out buffer is touched by its owner alone) and that bytes which existed before the call are not overwritten (examples already returned are owned by their receiver: the ownership post proved for the object/array builders)"
 //@   maypanic
 //@   modifies *
-//@   keeps byte
-//@   defines forall q *stdBytes.Buffer :: !old(q.pooled) ==> !q.pooled && q.n == old(q.n) && q.last == old(q.last) && q.prev == old(q.prev) && q.b0 == old(q.b0) && q.b1 == old(q.b1)
+//@   keeps byte, exampleBuilder
+//@   defines forall q *stdBytes.Buffer :: old(allocated(q)) && !old(q.pooled) ==> !q.pooled && q.n == old(q.n) && q.last == old(q.last) && q.prev == old(q.prev) && q.b0 == old(q.b0) && q.b1 == old(q.b1)
+
+// a type reference: the example of the referenced type (at most twice per type on one
+// path, then absent), or the text itself when it is not a user type name
+//@ func (*exampleBuilder).buildExampleForMixedValueNode(node)
+//@   props C11 C15
+//@   requires b != nil && node != nil && b.processedTypes != nil
+//@   assumes lexWF(node.schemaLexEvent) && 0 <= node.schemaLexEvent.begin && node.schemaLexEvent.begin <= node.schemaLexEvent.end && node.schemaLexEvent.file.content[node.schemaLexEvent.begin] != ',' && node.schemaLexEvent.file.content[node.schemaLexEvent.end] != ','
+//@   assumes forall k string :: dom(b.types, k) ==> b.types[k].schema != nil
+//@   maypanic
+//@   modifies *
+//@   keeps exampleBuilder
+//@   ensures normal && result0 != nil ==> len(result0) > 0 && result0[len(result0) - 1] != ',' && result0[0] != ','
+//@   ensures forall q *stdBytes.Buffer :: old(allocated(q)) && !old(q.pooled) ==> !q.pooled && q.n == old(q.n) && q.last == old(q.last) && q.prev == old(q.prev) && q.b0 == old(q.b0) && q.b1 == old(q.b1)
 
 // C15: "separators decided by what was emitted": the text of an object / array
 // example starts with its bracket, ends with the matching bracket, and the byte
 // before the closing bracket is never a comma
 //@ func (*exampleBuilder).buildExampleForObjectNode(node)
 //@   props C11 C15
-//@   requires b != nil && node != nil
+//@   requires b != nil && node != nil && b.processedTypes != nil
 //@   assumes consReady(box(node))
 //@   maypanic
 //@   modifies *
+//@   keeps exampleBuilder
 //@   ensures normal && result1 == nil ==> len(result0) == 0 || result0.$arr > old(alloc)
 //@   ensures normal && result1 == nil ==> len(result0) >= 2 && result0[len(result0) - 1] == '}' && result0[len(result0) - 2] != ','
 //@   ensures normal && result1 == nil ==> result0[0] == '{' && result0[1] != ','
+//@   ensures normal && result1 != nil ==> result0.$arr == 0
+//@   ensures forall q *stdBytes.Buffer :: old(allocated(q)) && !old(q.pooled) ==> !q.pooled && q.n == old(q.n) && q.last == old(q.last) && q.prev == old(q.prev) && q.b0 == old(q.b0) && q.b1 == old(q.b1)
+//@   loop 0 invariant forall q *stdBytes.Buffer :: old(allocated(q)) && !old(q.pooled) ==> !q.pooled && q.n == old(q.n) && q.last == old(q.last) && q.prev == old(q.prev) && q.b0 == old(q.b0) && q.b1 == old(q.b1)
+//@   loop 0 invariant forall x *exampleBuilder :: old(allocated(x)) ==> x.types == old(x.types) && x.processedTypes == old(x.processedTypes)
 //@   loop 0 invariant buf.n >= 1 && buf.last != ',' && !buf.pooled && buf.b0 == '{' && (buf.n >= 2 ==> buf.b1 != ',') && (first <==> buf.n == 1)
 
 //@ func (*exampleBuilder).buildExampleForArrayNode(node)
 //@   props C11 C15
-//@   requires b != nil && node != nil
+//@   requires b != nil && node != nil && b.processedTypes != nil
 //@   assumes consReady(box(node))
 //@   maypanic
 //@   modifies *
+//@   keeps exampleBuilder
 //@   ensures normal && result1 == nil ==> len(result0) == 0 || result0.$arr > old(alloc)
 //@   ensures normal && result1 == nil ==> len(result0) >= 2 && result0[len(result0) - 1] == ']' && result0[len(result0) - 2] != ','
 //@   ensures normal && result1 == nil ==> result0[0] == '[' && result0[1] != ','
+//@   ensures normal && result1 != nil ==> result0.$arr == 0
+//@   ensures forall q *stdBytes.Buffer :: old(allocated(q)) && !old(q.pooled) ==> !q.pooled && q.n == old(q.n) && q.last == old(q.last) && q.prev == old(q.prev) && q.b0 == old(q.b0) && q.b1 == old(q.b1)
+//@   loop 0 invariant forall q *stdBytes.Buffer :: old(allocated(q)) && !old(q.pooled) ==> !q.pooled && q.n == old(q.n) && q.last == old(q.last) && q.prev == old(q.prev) && q.b0 == old(q.b0) && q.b1 == old(q.b1)
+//@   loop 0 invariant forall x *exampleBuilder :: old(allocated(x)) ==> x.types == old(x.types) && x.processedTypes == old(x.processedTypes)
 //@   loop 0 invariant buf.n >= 1 && buf.last != ',' && !buf.pooled && buf.b0 == '[' && (buf.n >= 2 ==> buf.b1 != ',') && (first <==> buf.n == 1)
 
 // C07: Validate on a schema without an example must fail with a library error,
